@@ -244,14 +244,16 @@ HTTPJunk == [junk : 0..24, eol : {"crlf", "lf"}]
 \* HTTP/2 with prior knowledge (RFC 9113 3.4): the preface "PRI * HTTP/2.0 CRLF CRLF SM CRLF CRLF",
 \* SETTINGS, then HEADERS carrying the request; "bigframe": a frame header announcing 16 MiB
 \* tenant: the x-tenant fields of the HEADERS frame, in order ("none": the field is absent)
-HTTP2Msgs == { m \in [h2 : {"request", "bigframe", "preface_only"}, host : {"example.com", "other.org"}, path : {"/api/x", "/"}, method : {"GET", "POST"},
+\* "manyframes": the preface followed by twelve well-formed frames none of which is HEADERS (SETTINGS, PRIORITY,
+\* WINDOW_UPDATE, PING): whether that is "HTTP" is left open, it is there for C04 and C06
+HTTP2Msgs == { m \in [h2 : {"request", "bigframe", "preface_only", "manyframes"}, host : {"example.com", "other.org"}, path : {"/api/x", "/"}, method : {"GET", "POST"},
                        tenant : {"none", "alpha", "alpha_beta", "beta_alpha", "beta"}] :
                m.tenant # "none" => (m.h2 = "request" /\ m.host = "example.com" /\ m.path = "/api/x" /\ m.method = "GET") }
 HTTPRef(m, cfg) ==
   IF "junk" \in DOMAIN m THEN "N"
   ELSE IF "h2" \in DOMAIN m THEN
        (IF m.h2 = "preface_only" THEN "M"
-        ELSE IF m.h2 = "bigframe" THEN "X"
+        ELSE IF m.h2 \in {"bigframe", "manyframes"} THEN "X"
         ELSE IF CASE cfg.filter = "none" -> TRUE
                   [] cfg.filter = "host" -> m.host = "example.com"
                   [] cfg.filter = "path" -> m.path = "/api/x"
@@ -296,13 +298,15 @@ WBRef(m, cfg) ==
 (***************************************************************************)
 \* "emptyrec": a handshake record of length 0; "shortrec": a handshake record of 3 bytes (type ClientHello, length cut);
 \* "notch": a handshake record whose first message is no ClientHello (type 2)
-TLSMsgs == [kind : {"hello", "alert", "appdata", "sslv2", "http", "emptyrec", "shortrec", "notch"}, sni : {"a.example.com", "b.example.com", ""}, alpn : {"none", "h2"}]
+\* "hslong": a handshake record whose ClientHello header announces more bytes than the record carries (the hello goes on
+\* in the next record, RFC 8446 5.1, which has not arrived); "twofrag": a real hello cut into two handshake records
+TLSMsgs == [kind : {"hello", "alert", "appdata", "sslv2", "http", "emptyrec", "shortrec", "notch", "hslong", "twofrag"}, sni : {"a.example.com", "b.example.com", ""}, alpn : {"none", "h2"}]
 TLSCfgs == [sni : {<<>>, <<"a.example.com">>}, alpn : {<<>>, <<"h2">>}]
 \* (a handshake record that ends inside the ClientHello's own header may be the first fragment of a hello that
 \* continues in the next record: left open)
 \* The matcher documents "matches if the connection is a TLS handshake": whether a handshake record that carries no
 \* ClientHello (empty, another message type) counts is left open as well; such records are there for C04 and C06.
-TLSRef(m, cfg) == IF m.kind \in {"shortrec", "emptyrec", "notch"} THEN "X"
+TLSRef(m, cfg) == IF m.kind \in {"shortrec", "emptyrec", "notch", "hslong", "twofrag"} THEN "X"
                   ELSE IF m.kind # "hello" THEN "N"
                   ELSE IF /\ (cfg.sni = <<>> \/ m.sni = "a.example.com")
                           /\ (cfg.alpn = <<>> \/ m.alpn = "h2")
